@@ -120,6 +120,10 @@ type pathWorld struct {
 	everMax  map[string]time.Time
 	accepted int
 	nonEmpty int
+	// only used to give a content mismatch a stable signature: the connection does not enforce
+	// foreign keys (so ON DELETE CASCADE is dead) and segments have been deleted in this run
+	fkOff   bool
+	deleted int
 }
 
 func runPathClean(r *core.Run)  { core.Bubble(r, func(t *testing.T) { runPath(r, false) }) }
@@ -132,6 +136,11 @@ func (w *pathWorld) open() {
 	}
 	w.db = b
 	w.rw = b
+	var fk int
+	if err := b.DB().Full.QueryRow("PRAGMA foreign_keys").Scan(&fk); err != nil {
+		panic(core.InfraError{Msg: "pragma foreign_keys: " + err.Error()})
+	}
+	w.fkOff = fk == 0
 }
 
 func runPath(r *core.Run, faults bool) {
@@ -329,11 +338,12 @@ func (w *pathWorld) orphans(remove bool) int {
 	return total
 }
 
-// attribute gives a content mismatch the signature of the orphaned-rows defect when the database
-// contains orphaned rows (a deleted segment's types / groups / interfaces were left behind and a
-// later segment reusing the row id inherited them).
+// attribute gives a content mismatch the signature of the orphaned-rows defect when the store's
+// connections do not enforce foreign keys and segments were deleted earlier in the run (a deleted
+// segment's types / groups / interfaces stay behind and a later segment reusing the row id inherits
+// them). The verdict itself never depends on this.
 func (w *pathWorld) attribute(sig string) string {
-	if w.orphans(false) > 0 {
+	if w.fkOff && w.deleted > 0 {
 		return sigOrphans
 	}
 	return sig
@@ -592,6 +602,7 @@ func (w *pathWorld) opDelete(i int) {
 		if strings.HasPrefix(id, strings.ToUpper(prefix)) {
 			delete(w.cur.segs, id)
 			n++
+			w.deleted++
 		}
 	}
 	r.Covered(fmt.Sprintf("p.delete:len=%d,n=%d", l, min(n, 2)))
@@ -624,6 +635,7 @@ func (w *pathWorld) opDeleteExpired(i int) {
 		if w.cur.segs[id].v.expiry.Before(now) {
 			delete(w.cur.segs, id)
 			want++
+			w.deleted++
 		}
 	}
 	if want > 0 {
